@@ -685,6 +685,22 @@ func (f Function) lambdaPrint(ps *ast.PrintState, out *strings.Builder) string {
 // A brace-less lambda body is a single expression binding tighter than =>: a return, a comment or
 // an operator of lower precedence (x => a || b is (x => a) || b) need the braces.
 func lambdaBodyOk(stmt ast.Node) bool {
+	// A body whose text starts with { (a map literal being called, indexed or used as left operand) would be read as a block.
+	for left := stmt; left != nil; {
+		switch l := left.(type) {
+		case *ast.InfixExpression:
+			left = l.Left
+		case *ast.CallExpression:
+			left = l.Function
+		case *ast.IndexExpression:
+			left = l.Left
+		default:
+			if left.Value() != nil && left.Value().Type() == token.LBRACE {
+				return false
+			}
+			left = nil
+		}
+	}
 	switch s := stmt.(type) {
 	case *ast.ReturnStatement, *ast.Comment:
 		return false
